@@ -234,7 +234,7 @@ func (v *Val) SDL(o *SDLOpts) string {
 				pad = " "
 			}
 			lead := ""
-			if o.chance(1, 4) {
+			if !strings.HasPrefix(v.Raw, `"`) && o.chance(1, 4) {
 				lead = "\n  "
 			}
 			return `"""` + lead + v.Raw + pad + `"""`
